@@ -57,7 +57,7 @@ def risk_file(tokens) -> str:
     for i, t in enumerate(tokens):
         rows.append(
             {
-                "underlyingAsset": f"0x{i:040x}", "name": t["name"] + " token", "symbol": t["name"], "decimals": t["dec"],
+                "underlyingAsset": f"0x{i:040x}", "name": "USD Coin" if t["name"] == "USDC" else t["name"] + " token", "symbol": t["name"], "decimals": t["dec"],
                 "baseLTVasCollateral": t["ltv"], "reserveLiquidationThreshold": t["lt"],
                 "reserveLiquidationBonus": 10000 + t["bonus"], "reserveFactor": 1000,
                 "usageAsCollateralEnabled": bool(t["coll"]), "borrowingEnabled": bool(t["borrow"]),
